@@ -1,6 +1,7 @@
 package main
 
 import (
+	"os"
 	"fmt"
 	"math/big"
 	"strings"
@@ -84,6 +85,17 @@ func (p *Program) quantified(x *Exec, ax *Axiom) *Term {
 	body := p.instance(x, ax, app)
 	if body == nil {
 		return nil
+	}
+	// A sequence parameter stands for a real slice: its length is never negative. Without this guard an
+	// axiom such as 0 <= firstidx(s,t) <= len(s) is inconsistent when quantified over all integers.
+	var guards []*Term
+	for _, b := range bound {
+		if strings.HasSuffix(b.Name, ".n") && b.Sort == SInt {
+			guards = append(guards, Ge(b, Int(0)))
+		}
+	}
+	if len(guards) > 0 && os.Getenv("STUNVC_SELFTEST_NO_LEN_GUARD") == "" { // the variable re-creates a known-inconsistent axiom for the selftest of the consistency probes
+		body = Implies(And(guards...), body)
 	}
 	return Forall(bound, body, app)
 }
@@ -362,4 +374,62 @@ func (p *Program) lemmaDuty(x *Exec, ax *Axiom) (obs []*Obligation, err error) {
 	base := newOb("base", []*Term{req0}, body0)
 	step := newOb("step", []*Term{Ge(k, Int(0)), Implies(reqK, bodyK), reqS}, bodyS)
 	return []*Obligation{base, step}, nil
+}
+
+// axiomSmokes: consistency probes for the quantified axioms (each alone and all together): a specification
+// whose axioms are refutable makes every proof vacuous.
+func (p *Program) axiomSmokes() []*smoke {
+	x := &Exec{p: p, names: map[string]int{}}
+	var all []*Term
+	var out []*smoke
+	for _, ax := range p.spec.Axioms {
+		if !ax.Quant || ax.Lemma {
+			continue
+		}
+		q := p.quantified(x, ax)
+		if q == nil {
+			continue
+		}
+		all = append(all, q)
+		out = append(out, &smoke{name: "axiom-consistency/" + ax.Name, after: []*Term{q}})
+		// stress instances: the body at corner values of its integer variables (-1, 0, unconstrained); a
+		// refutable instance means no function satisfies the axiom
+		if q.Op == "forall" && len(q.Args) > 0 {
+			var ints []*Term
+			for _, b := range q.Bound {
+				if b.Sort == SInt {
+					ints = append(ints, b)
+				}
+			}
+			combos := 1
+			for range ints {
+				combos *= 3
+			}
+			if combos > 243 {
+				combos = 243
+			}
+			var insts []*Term
+			for c := 0; c < combos; c++ {
+				m := map[string]*Term{}
+				k := c
+				for _, b := range ints {
+					switch k % 3 {
+					case 0:
+						m[b.Name] = Int(-1)
+					case 1:
+						m[b.Name] = Int(0)
+					}
+					k /= 3
+				}
+				insts = append(insts, subst(q.Args[0], m))
+			}
+			for c, in := range insts {
+				out = append(out, &smoke{name: fmt.Sprintf("axiom-consistency/%s/corner%d", ax.Name, c), after: []*Term{in}})
+			}
+		}
+	}
+	if len(all) > 1 {
+		out = append(out, &smoke{name: "axiom-consistency/all", after: all})
+	}
+	return out
 }
